@@ -7,6 +7,7 @@ import Nlmodel.Driver.TreeGen
 import Nlmodel.Model.Session
 import Nlmodel.Driver.GcOps
 import Nlmodel.Model.Verifier
+import Nlmodel.Proofs.Lemmas.SimFnValidate
 open Nl
 
 /-- character classes: loaded from the table dumped by the harness from Rust's std
@@ -147,6 +148,17 @@ def handle (cc : CharClass) (line : String) : String :=
   | ["spec", b, h] =>
     match unhexText h with
     | some t => (specText cc b.toNat! t).show
+    | none => "bad-hex"
+  | ["fragment", h] =>
+    -- is the program inside the fragment the C01 simulation theorem covers (decided by the verified check `inFragment`)?
+    match unhexText h with
+    | some t =>
+      match parse cc t with
+      | .error _ => "noparse"
+      | .ok ast =>
+        match compileProgram ast with
+        | .error _ => "nocompile"
+        | .ok (r, _) => if SimF.inFragment r then "proved" else "outside"
     | none => "bad-hex"
   | _ => "bad-request"
 
